@@ -20,6 +20,13 @@ theorem runRules_unfold {o : Opts} {iterate : Bool} {sg dg : Graph} {rx : Regex}
   | ok pr =>
     obtain ⟨shapes, selected⟩ := pr
     simp only [hs] at h
+    cases htt : gatherTargetTypes sg with
+    | error e => simp [htt] at h
+    | ok tts =>
+    cases hfn : gatherFunctions sg with
+    | error e => simp [htt, hfn] at h
+    | ok fns =>
+    simp only [htt, hfn] at h
     cases hg : gatherRules sg shapes constructs (selected.map fun l => l.map (·.node)) with
     | error e => simp [hg] at h
     | ok groups =>
@@ -140,10 +147,10 @@ private def sgEx : Graph := [⟨ex "S", rdfType, shNodeShape⟩, ⟨ex "S", sh "
   ⟨ex "R0", rdfType, shTripleRule⟩, ⟨ex "R0", shDeactivated, trueLit⟩,
   ⟨ex "R0", shSubject, shThis⟩, ⟨ex "R0", shPredicate, ex "never"⟩, ⟨ex "R0", shObject, ex "b"⟩]
 
-example : (runRules {} false sgEx [] (fun _ _ _ => none) [] [] (fun _ => [])).toOption =
+example : (runRules {} false sgEx [] (fun _ _ _ => none) [] [] (fun _ => []) {}).toOption =
     some [⟨ex "a", ex "p", ex "b"⟩, ⟨ex "a", ex "q", ex "b"⟩] := by decide +kernel
 
-example : (runRules {} true sgEx [⟨ex "x", ex "y", ex "z"⟩] (fun _ _ _ => none) [] [] (fun _ => [])).toOption =
+example : (runRules {} true sgEx [⟨ex "x", ex "y", ex "z"⟩] (fun _ _ _ => none) [] [] (fun _ => []) {}).toOption =
     some [⟨ex "x", ex "y", ex "z"⟩, ⟨ex "a", ex "p", ex "b"⟩, ⟨ex "a", ex "q", ex "b"⟩] := by decide +kernel
 
 end Pyshacl.C15
